@@ -54,6 +54,8 @@ def random_mixed_basis(rng, natom=3):
         shells.append(gb.make_shell(0, [1, 0], ["c", "c"], [1.2, 0.3], rng.uniform(0.2, 1, size=(2, 2))))
     if rng.random() < 0.2:  # generalized contraction with repeated angular momentum (ANO style)
         shells.append(gb.make_shell(1, [0, 0, 0], ["c", "c", "c"], [5.0, 1.2, 0.3], rng.uniform(0.2, 1, size=(3, 3))))
+    if rng.random() < 0.3:
+        shells = [gb.relayout_shell(rng, sh) for sh in shells]  # same shells, arrays in other memory layouts
     conv = gb.random_conventions(rng, gb.keys_of(shells))
     return gb.make_basis(shells, conv)
 
